@@ -175,7 +175,9 @@ def run(tier, seed):
         import sqlparse as sp
         acc = core.Acc(bits=24)
         for rname, region in chunk:
-            for host in HOSTS:
+            for hi, host in enumerate(HOSTS):
+                if tier == 'quick' and len(region) > 7 and hi % 2:
+                    continue          # longest bodies: every second host position in the quick tier
                 if rname in ('dollar', 'dollar-tag') and host[0] == 'tight-after-name':
                     continue      # '$' directly after a word character continues the word (documented look-behind)
                 text, bad = check_region(sp, host, region)
